@@ -520,6 +520,20 @@ fn test_posix_print(c: &PosixPrint, cx: &mut Cx) -> CaseResult {
     if let Some((p, x, y)) = first_difference(&tz, &back, &probes) {
         fail!("posix-print-behaviour-differs", "{:?} -> {printed:?}: at {p}ns\n    {x}\n  vs\n    {y}", c.tz);
     }
+    // the documented pair: DateTimePrinter::time_zone_to_string / DateTimeParser::parse_time_zone
+    {
+        use jiff::fmt::temporal::{DateTimeParser, DateTimePrinter};
+        let text = DateTimePrinter::new().time_zone_to_string(&tz).map_err(|e| Failure::new("posix-print-unprintable", format!("{:?}: time_zone_to_string fails: {e}", c.tz)))?;
+        let mut text2 = String::new();
+        ensure!(DateTimePrinter::new().print_time_zone(&tz, &mut text2).is_ok() && text2 == text, "posix-print-routes-differ", "{:?}: print_time_zone wrote {text2:?}, time_zone_to_string {text:?}", c.tz);
+        for (what, parsed) in [("parse_time_zone", DateTimeParser::new().parse_time_zone(&text)), ("parse_time_zone_with", DateTimeParser::new().parse_time_zone_with(jiff::tz::db(), &text)), ("parse_time_zone(bytes)", DateTimeParser::new().parse_time_zone(text.as_bytes()))] {
+            let back2 = parsed.map_err(|e| Failure::new("posix-print-unparseable", format!("{:?} prints as {text:?} which {what} does not parse: {e}", c.tz)))?;
+            ensure!(back2 == tz, "posix-print-not-equal", "{:?} prints as {text:?} which {what} parses to a different zone", c.tz);
+            if let Some((p, x, y)) = first_difference(&tz, &back2, &probes) {
+                fail!("posix-print-behaviour-differs", "{:?} -> {text:?} -> {what}: at {p}ns\n    {x}\n  vs\n    {y}", c.tz);
+            }
+        }
+    }
     Ok(())
 }
 
